@@ -65,6 +65,16 @@ open_("C13", "D33", "C13/lost@g.txt:2", [],
 open_("C06", "D9", "C06/stdout@--html-path status", [],
       "command line: `git --html-path status` (likewise --man-path / --info-path followed by a subcommand) => plain git prints the documentation path and exits 0; through the proxy the query option is dropped and `status` runs (different stdout). The pinned suite asserts the current behaviour (git_cli_arg_parsing::meta_html_path_then_real_command_meta_is_dropped_current_behavior), so the repair is not an unedited-suite-compatible fix",
       "c06.html_path_followed_by_command", ["tmpl:--html-path status"], affects=["C18"])
+open_("C16", "D38", "C16/whitespace-reformat-changed-author@large", [],
+      "input: a 3000-line file (about 55 KiB, every line attributed to one AI session) converted from LF to CRLF line endings by a person => only 2864 of 3000 lines keep their author (and for multibyte content some returned ranges do not sit on character boundaries): the large-input path of update_attributions is not conservative for whitespace-only reformats",
+      "c16.crlf_flip_of_large_file", ["tracker_large_inputs"], affects=[])
+open_("C16", "D39", "C16/unchanged-line-changed-author@line2", [],
+      "input: old text `++ tok396252_cc v587` (one AI line of session C, no final newline); session A inserts one line before and one line after it => the untouched line 2 is re-attributed to A (without a final newline the unchanged last line is not matched as equal and the token diff hands it to the editor; same root as D17)",
+      "c16.insertions_around_last_line_without_newline", ["tracker_noeol_append"], affects=[])
+open_("C17", "D37", "C17/remap-changed-log", [],
+      "input: an authorship log listing a file whose name contains the text `\"base_commit_sha\":\"x\"` => try_remap_base_commit_sha_field / remap_note_content_for_target_commit rewrite the first textual occurrence, i.e. the path line, instead of the metadata field: the remapped note has a different file name and the old base",
+      "c17.file_name_containing_base_commit_sha_field", ["path:json-field"], affects=["C05"])
+fixed("C17", "D40", "^fix: a path line consisting of a single quote", "arbitrary note-like text containing a line that is a single double-quote character panicked deserialize_from_string (slice 1..0 in parse_attestation_section)", "c17.single_quote_path_line")
 # ---------------------------------------------------------------- C02
 open_("C02", "D20", "C03/unsound-note@f.txt:12", [],
       "history: feature branch = [person replaces 2 lines of f.txt by 1; AI session S1 modifies line 5 of f.txt]; upstream inserts 2 AI lines after line 1 and then 5 human lines after line 5 of f.txt; `git rebase main` (no conflict) => the rewritten AI commit's note lists line 12 (text written by a person) as S1: the full rebase replay mis-places attributions when upstream changed the same file",
